@@ -274,6 +274,18 @@ def check_tool_collisions(rng, counters, classes):
         if p in seen:
             vio.append({'key': 'collision:duplicate', 'detail': '%r and %r both map to %r' % (seen[p], n, p)})
         seen[p] = n
+    # a name that is legal already and is used in *another* directory must stay as it is: every
+    # directory level has its own set of used names
+    legal = ('QZ%d' % rng.randint(0, 99)) if is_dir else ('QZ%d.TXT' % rng.randint(0, 99))
+    want = legal if (is_dir or level == 4) else legal + ';1'
+    first = tool.build_iso_path(parent, legal, level, is_dir)
+    other = tool.DirLevel('/OTHER', '/other', '/other')
+    second = tool.build_iso_path(other, legal, level, is_dir)
+    counters['tool_paths'] = counters.get('tool_paths', 0) + 2
+    for got, lvl in ((first, parent), (second, other)):
+        if got is not None and got.rsplit('/', 1)[1] not in (want, legal + ';1', legal):
+            vio.append({'key': 'collision:spurious:%s' % ('dir' if is_dir else 'file'),
+                        'detail': 'build_iso_path(%r) in directory %s -> %r although no entry of that directory uses the name' % (legal, lvl.iso_path, got)})
     classes.add((level, 'tool', 'dir' if is_dir else 'file'))
     return vio
 
